@@ -2,7 +2,7 @@
 # usage: run_seed.sh <seed dir> <property ids...> : applies the seed to /repo, runs the checks, reverts.
 d=$1; shift
 if [ -n "$(git -C /repo status --porcelain)" ]; then echo "/repo not clean; refusing"; exit 2; fi
-git -C /repo apply $d/patch.diff || exit 2
+git -C /repo apply $(realpath $d)/patch.diff || exit 2
 for id in "$@"; do /verif/bin/govc check $id; echo "rc[$id]=$?"; done
 git -C /repo checkout -- . 
 git -C /repo status --porcelain
